@@ -60,6 +60,9 @@ package core
 //@   ensures  lists:   forall l *core.List[model.File] :: l != &tx.store[f.Key].l && l != &u.allStore.store[f.Key].l ==> l.elems == old(l.elems)
 //@   ensures  values:  forall m *core.Node[model.File] :: old(m.owner) != nil ==> m.v.Seq == old(m.v.Seq) && m.v.Key == old(m.v.Key) && m.v.TxId == old(m.v.TxId) && m.v.ContentId == old(m.v.ContentId)
 //@   ensures  txs:     forall t *core.Transaction :: t != tx && t != &u.allStore ==> t.store == old(t.store)
+// only the two new nodes' values are written: every other File value (in a node or in a slice) is unchanged
+//@   ensures  files:   forall g *model.File :: g != &tx.store[f.Key].l.elems[len(tx.store[f.Key].l.elems)-1].v && g != &u.allStore.store[f.Key].l.elems[len(u.allStore.store[f.Key].l.elems)-1].v && allocated(g) ==>
+//@                        g.Seq == old(g.Seq) && g.Key == old(g.Key) && g.TxId == old(g.TxId) && g.ContentId == old(g.ContentId)
 //@   ensures  maps:    forall mp map[string]*core.file :: mp != nil && mp != tx.store && mp != u.allStore.store && allocated(mp) ==>
 //@                        forall k string :: has(mp, k) == old(has(mp, k)) && mp[k] == old(mp[k])
 
